@@ -328,7 +328,7 @@ def main(argv=None):
                 "counterexamples_replayed": len(results), "counterexamples_reproduced": len(reproduced),
                 "known_findings_matched": [{"label": l, "what": h["what"], "paths": len(by_label[l])} for l, h, _ in known_hit],
                 "validation_mismatches": len(mismatches), "shim_selftests": st,
-                "outside_bounds": getattr(mod, "OUTSIDE", []), "stubs": getattr(mod, "STUBS", DEFAULT_STUBS),
+                "outside_bounds": getattr(mod, "OUTSIDE", []), "stubs": DEFAULT_STUBS + list(getattr(mod, "STUBS_EXTRA", [])),
                 "solver": "z3 %s (python API), QF_BV+LIA" % __import__("z3").get_version_string(),
                 "second_opinion": second,
                 "repo": repo_state(),
